@@ -32,21 +32,25 @@ HELPER_CASES = [
 
 def find_helper(ix: Index) -> Optional[str]:
     """The Tokenizer method whose result the line-cache fill in `peek` iterates as (number, text) pairs."""
-    pk = ix.funcs.get("Tokenizer.peek")
-    if pk is None:
-        return None
-    defs: dict[str, list[ast.expr]] = {}
-    for n in own_nodes(pk.node):
-        if isinstance(n, ast.Assign) and len(n.targets) == 1 and isinstance(n.targets[0], ast.Name):
-            defs.setdefault(n.targets[0].id, []).append(n.value)
-    for n in own_nodes(pk.node):
-        if isinstance(n, ast.For) and isinstance(n.target, ast.Tuple) and len(n.target.elts) == 2:
-            it = n.iter
-            if isinstance(it, ast.Name) and len(defs.get(it.id, [])) == 1:
-                it = defs[it.id][0]
-            if isinstance(it, ast.Call) and isinstance(it.func, ast.Attribute) and norm_stmt(it.func.value) in ("self", "Tokenizer", "type(self)") \
-                    and f"Tokenizer.{it.func.attr}" in ix.funcs:
-                return f"Tokenizer.{it.func.attr}"
+    # the fill lives in `peek` or in a method it delegates the fetching to: `peek` first, then the other Tokenizer methods that
+    # write the line cache
+    cands = [ix.funcs.get("Tokenizer.peek")] + [f for q, f in sorted(ix.funcs.items()) if f.cls == "Tokenizer" and f.node.name != "peek"
+                                                 and "self._lines" in norm_stmt(f.node)]
+    for pk in cands:
+        if pk is None:
+            continue
+        defs: dict[str, list[ast.expr]] = {}
+        for n in own_nodes(pk.node):
+            if isinstance(n, ast.Assign) and len(n.targets) == 1 and isinstance(n.targets[0], ast.Name):
+                defs.setdefault(n.targets[0].id, []).append(n.value)
+        for n in own_nodes(pk.node):
+            if isinstance(n, ast.For) and isinstance(n.target, ast.Tuple) and len(n.target.elts) == 2:
+                it = n.iter
+                if isinstance(it, ast.Name) and len(defs.get(it.id, [])) == 1:
+                    it = defs[it.id][0]
+                if isinstance(it, ast.Call) and isinstance(it.func, ast.Attribute) and norm_stmt(it.func.value) in ("self", "Tokenizer", "type(self)") \
+                        and f"Tokenizer.{it.func.attr}" in ix.funcs:
+                    return f"Tokenizer.{it.func.attr}"
     return None
 
 
